@@ -14,6 +14,8 @@ import (
 	"fmt"
 	"os"
 	"regexp"
+	"runtime"
+	"runtime/pprof"
 	"sort"
 	"strconv"
 	"strings"
@@ -52,9 +54,13 @@ type info struct {
 	rd                 *reader
 }
 
-func (f *info) IsRemoteServiceForSKIPaired(string) bool { f.mu.Lock(); defer f.mu.Unlock(); return f.paired }
-func (f *info) IsAutoAcceptEnabled() bool               { f.mu.Lock(); defer f.mu.Unlock(); return f.auto }
-func (f *info) AllowWaitingForTrust(string) bool        { f.mu.Lock(); defer f.mu.Unlock(); return f.wait }
+func (f *info) IsRemoteServiceForSKIPaired(string) bool {
+	f.mu.Lock()
+	defer f.mu.Unlock()
+	return f.paired
+}
+func (f *info) IsAutoAcceptEnabled() bool        { f.mu.Lock(); defer f.mu.Unlock(); return f.auto }
+func (f *info) AllowWaitingForTrust(string) bool { f.mu.Lock(); defer f.mu.Unlock(); return f.wait }
 func (f *info) HandleConnectionClosed(_ api.ShipConnectionInterface, completed bool) {
 	f.log.Add("closed", vh.B(completed))
 }
@@ -234,7 +240,7 @@ func concrete(m string, dataID string, pick int) []byte {
 		case "mid":
 			w = []int{5000, 1000, 29999}[pick%3]
 		case "ge30":
-			w = []int{60000, 40000, 4000000}[pick%3]
+			w = []int{60000, 90000, 4000000}[pick%3]
 		}
 		if pick%2 == 0 { // EEBUS spelling
 			parts := []string{fmt.Sprintf(`{"phase":"%s"}`, phase)}
@@ -339,9 +345,10 @@ type expect struct {
 }
 
 type step struct {
-	A act               `json:"a"`
-	X map[string]expect `json:"x"`
-	N map[string]int    `json:"n"`
+	A act                 `json:"a"`
+	X map[string]expect   `json:"x"` // absent on the prefix steps of an edge test
+	N map[string]int      `json:"n"`
+	P map[string][]string `json:"p"` // edge tests: delayed goroutines pending after the step
 }
 
 type cfg struct {
@@ -373,17 +380,17 @@ type ob struct {
 }
 
 type obsStep struct {
-	A  act `json:"a"`
+	A  act    `json:"a"`
 	E  string `json:"e"` // endpoint this line is about
-	Ob ob  `json:"ob"`
+	Ob ob     `json:"ob"`
 }
 
 type obsTrace struct {
-	ID    int       `json:"id"`
-	Cfg   cfg       `json:"cfg"`
+	ID    int               `json:"id"`
+	Cfg   cfg               `json:"cfg"`
 	Roles map[string]string `json:"roles"`
-	Steps []obsStep `json:"steps"`
-	Pair  *pairEnd  `json:"pairEnd,omitempty"`
+	Steps []obsStep         `json:"steps"`
+	Pair  *pairEnd          `json:"pairEnd,omitempty"`
 }
 
 // pairEnd is the quiescent end of a pair run, judged by JudgePair (C03)
@@ -416,7 +423,7 @@ type endpoint struct {
 	info    *info
 	w       *writer
 	c       *ship.ShipConnection
-	mark    int           // log position at the start of the current step
+	mark    int            // log position at the start of the current step
 	blocked *vh.CallResult // an Inject(close announce) call that is still sleeping
 	dead    bool
 	queue   [][]byte // pair: frames in flight to this endpoint; nil entry = end of stream
@@ -445,6 +452,7 @@ func (e *endpoint) observe(panicked, hung bool) (ob, expect) {
 	if ev == nil {
 		ev = []vh.Event{}
 	}
+	e.mark += len(ev) // nothing the real code does is ever dropped: a late event is seen by the next observation
 	o := ob{St: stName(s.State), TRun: s.TimerRunning, WsOpen: !e.w.isClosed(), Ev: ev, Panicked: panicked, Hung: hung}
 	stored := "none"
 	if s.RemoteShipID != "" {
@@ -457,6 +465,19 @@ func (e *endpoint) observe(panicked, hung bool) (ob, expect) {
 	x := expect{St: o.St, TRun: o.TRun, TType: tt, Lw: s.LastWaitingSet, Reader: s.ReaderSet, Buf: s.BufLen,
 		WsOpen: o.WsOpen, Stored: stored, Ev: ev, Panicked: panicked, Hung: hung}
 	return o, x
+}
+
+// normSleep: which of two goroutines that wake up at the same instant reports the end first is not determined,
+// so the completed-flag of a closed report is not compared on Sleep steps
+func normSleep(ev []vh.Event) []vh.Event {
+	out := make([]vh.Event, len(ev))
+	for i, e := range ev {
+		if e.K == "closed" {
+			e.V = "*"
+		}
+		out[i] = e
+	}
+	return out
 }
 
 func diff(real, exp expect) string {
@@ -487,9 +508,23 @@ func diff(real, exp expect) string {
 
 const callDeadline = 4 * time.Second
 
+// run tokens: only a few behaviours execute steps at the same time, so that the time between two steps of one
+// behaviour stays far below the library's shortest delay (500 ms); a token is handed back while a behaviour sleeps
+var tokens chan struct{}
+
+func acquire() { tokens <- struct{}{} }
+func release() { <-tokens }
+func sleepReleased(d time.Duration) {
+	release()
+	time.Sleep(d)
+	acquire()
+}
+
 // runTest replays one behaviour. It never stops at a divergence: the remaining environment actions
 // are still applied to the real objects, so the observation trace is a genuine run of the real code.
 func runTest(t *test, seed int) (obsTrace, *divergence) {
+	acquire()
+	defer release()
 	eps := map[string]*endpoint{}
 	if t.Cfg.Pair {
 		c := newEndpoint("c", "client", true, false, true, t.Cfg.StoredC, "A")
@@ -531,9 +566,6 @@ func runTest(t *test, seed int) (obsTrace, *divergence) {
 		if a.A == "Nop" || a.A == "Tick" {
 			continue
 		}
-		for _, e := range eps {
-			e.mark = e.log.Len()
-		}
 		pick := seed + t.ID*7 + i
 		var res *vh.CallResult
 		obsAct := a
@@ -543,10 +575,12 @@ func runTest(t *test, seed int) (obsTrace, *divergence) {
 			who = names
 			for _, e := range eps {
 				if e.blocked != nil {
+					release()
 					select {
 					case <-e.blocked.Done:
 					case <-time.After(callDeadline):
 					}
+					acquire()
 					e.blocked = nil
 				}
 			}
@@ -554,7 +588,7 @@ func runTest(t *test, seed int) (obsTrace, *divergence) {
 			if has1s || div != nil {
 				d = 1300 * time.Millisecond
 			}
-			time.Sleep(d)
+			sleepReleased(d)
 			// under load a delayed goroutine can be late: wait (bounded) until the expected number of events is there
 			for k := 0; k < 100; k++ {
 				late := false
@@ -566,7 +600,7 @@ func runTest(t *test, seed int) (obsTrace, *divergence) {
 				if !late {
 					break
 				}
-				time.Sleep(20 * time.Millisecond)
+				sleepReleased(20 * time.Millisecond)
 			}
 		case "PropagateClose":
 			e := eps[a.E]
@@ -661,7 +695,19 @@ func runTest(t *test, seed int) (obsTrace, *divergence) {
 			announce := (a.A == "Inject" || a.A == "Deliver") && obsAct.M == "close.announce"
 			if announce {
 				// the handler blocks its caller (the read pump) for 500 ms; let it, and go on once the confirm is out
-				res = vh.Call(150*time.Millisecond, f)
+				res = vh.Call(time.Millisecond, f)
+				for t0 := time.Now(); res.Hung && time.Since(t0) < 60*time.Millisecond; {
+					select {
+					case <-res.Done:
+						res.Hung = false
+					default:
+						if e.log.Has(e.mark, "sentclose", "close.confirm") {
+							t0 = t0.Add(-time.Second)
+						} else {
+							time.Sleep(500 * time.Microsecond)
+						}
+					}
+				}
 				if res.Hung {
 					res.Hung = false
 					e.blocked = res
@@ -682,6 +728,9 @@ func runTest(t *test, seed int) (obsTrace, *divergence) {
 			o, real := e.observe(panicked, hung)
 			tr.Steps = append(tr.Steps, obsStep{A: obsAct, E: n, Ob: o})
 			if exp, ok := st.X[n]; ok {
+				if a.A == "Sleep" {
+					real.Ev, exp.Ev = normSleep(real.Ev), normSleep(exp.Ev)
+				}
 				if d := diff(real, exp); d != "" {
 					noteDiv(i, a, n+": "+d)
 				}
@@ -713,6 +762,14 @@ func runTest(t *test, seed int) (obsTrace, *divergence) {
 				}
 			}
 		}
+		for _, ps := range st.P {
+			for _, p := range ps {
+				anyPend = true
+				if p == "T1s" {
+					has1s = true
+				}
+			}
+		}
 	}
 	// final drain: let every delayed goroutine of the real connections run, then take a last observation
 	needDrain := anyPend || div != nil
@@ -725,10 +782,7 @@ func runTest(t *test, seed int) (obsTrace, *divergence) {
 		}
 	}
 	if needDrain && !stop {
-		for _, e := range eps {
-			e.mark = e.log.Len()
-		}
-		time.Sleep(1250 * time.Millisecond)
+		sleepReleased(1300 * time.Millisecond)
 		for _, n := range names {
 			e := eps[n]
 			if e.dead {
@@ -776,9 +830,16 @@ func main() {
 	testsPath := flag.String("tests", "", "ndjson file with behaviours generated by TLC")
 	obsPath := flag.String("obs", "", "ndjson file to write the observation traces to")
 	sumPath := flag.String("summary", "", "json file to write the summary to")
-	par := flag.Int("par", 1024, "parallel tests")
+	par := flag.Int("par", 8192, "parallel tests")
+	prof := flag.String("cpuprofile", "", "write a cpu profile")
 	flag.Parse()
+	if *prof != "" {
+		f, _ := os.Create(*prof)
+		pprof.StartCPUProfile(f)
+		defer pprof.StopCPUProfile()
+	}
 	seed := vh.EnvInt("VERIF_SEED", 1)
+	tokens = make(chan struct{}, vh.EnvInt("VERIF_TOKENS", 2*runtime.GOMAXPROCS(0)))
 
 	var tests []*test
 	err := vh.ReadLines(*testsPath, func(line []byte) error {
